@@ -2,6 +2,10 @@
 
 package memory
 
+import "github.com/paulsonkoly/calc/types/value"
+
 func verifAfterGrow(_ *Type, _ int) {}
 
 func verifClone(_ *Type) {}
+
+func verifCloneStack(_ *Type, s []value.Type) []value.Type { return s }
